@@ -34,10 +34,16 @@ def run(ctx):
     rule_verdict(F, R)
     rule_candidate(F, R)
     c13.rule_feeds(F, R, "C03")
+    # discarding an entry that is not a directory walkdir descended into must not leave its parent (a link read as a
+    # file matching an exhaustive negation): the flag a cancellation consults is the entry's own file type
+    c13.rule_skip(F, R)
+    c13.rule_isdir(F, R)
     rule_collapse(F, R)
     # discarding a tree equals discarding each entry beneath it iff the verdict `always` is sound (shared with C09)
     from . import exhaust
     exhaust.report(F, R, "C03.sound", ctx.tier)
+    from . import parsecat
+    parsecat.report_exhaustive(F, R, "C09.text")     # the same for alternations of alternations
 
 
 def rule_partition(F, R):
